@@ -20,7 +20,7 @@ func C15(r *core.Run) {
 		"(R15.2) for every persisted record type the fields read after decoding are fields that every encoding site writes, all exported and serialisable; " +
 		"(R15.3) the object hash kept in the metadata store is only ever computed from the object's bytes (the upload stream or a file of the object filesystem), never from the metadata filesystem — violated today by loadMeta's re-hash (known finding F17); " +
 		"(R08.2 = R15.4) an object is replaced only after the new content is complete — violated today by the fs backends (known findings F14); (R01.7) no persist error is dropped; " +
-		"(R15.5) each -backend option of the command passes its path flags to the matching constructor; (R15.6) an operation is acknowledged only after its metadata record was saved / its transaction committed."
+		"(R15.5) each -backend option of the command passes its path flags to the matching constructor; (R15.6) an operation is acknowledged only after its metadata record was saved / its transaction committed. (R15.8) opening a backend removes nothing from its storage, and the HTTP front end keeps no per-object state of its own: entity headers of GET/HEAD come from the object the backend returned."
 	r.NotDecided = "what survives kill -9 on a real filesystem, JSON/BSON value round trips, mod-time tolerance, legacy _meta-less databases"
 	rule151(r)
 	rule152(r)
@@ -30,6 +30,7 @@ func C15(r *core.Run) {
 	rule155(r)
 	rule156(r)
 	rule157(r)
+	rule158(r)
 }
 
 var boltMutators = map[string]bool{
@@ -604,4 +605,133 @@ func rule157(r *core.Run) {
 			r.Unresolved("R15.7: %d FsPath(flag) calls in cmd.run (expected 4)", n)
 		}
 	}
+}
+
+// rule158 — restart neither destroys nor forgets.
+func rule158(r *core.Run) {
+	r.Rule("R15.8", "no destructive storage call (Fs.Remove/RemoveAll/Rename, bolt DeleteBucket/Delete) is reachable from the constructors of the persistent backends (opening a store on existing data removes nothing — not even 'leftover' empty directories, which are what an empty bucket is); the GoFakeS3 front end keeps no per-object state: its fields are written only during construction (requestID aside) and the ETag header of GET/HEAD derives from the returned object's Hash alone")
+	ctors := []string{"s3afero.MultiBucket", "s3afero.SingleBucket", "s3bolt.New", "s3bolt.NewFile", "s3afero.newMetaStore"}
+	var roots []*ssa.Function
+	for _, c := range ctors {
+		if f := optFunc(r, c); f != nil {
+			roots = append(roots, f)
+		}
+	}
+	if len(roots) < 4 {
+		r.Unresolved("R15.8: only %d of the persistent backends' constructors found", len(roots))
+	}
+	n := 0
+	for f := range reachableFrom(r, roots) {
+		if !r.P.IsRepo(f) {
+			continue
+		}
+		ff := f
+		core.Instrs(ff, func(in ssa.Instruction) {
+			c, ok := in.(ssa.CallInstruction)
+			if !ok {
+				return
+			}
+			cn := r.P.CalleeName(c)
+			destructive := strings.HasSuffix(cn, "afero.Fs.Remove") || strings.HasSuffix(cn, "afero.Fs.RemoveAll") || strings.HasSuffix(cn, "afero.Fs.Rename") ||
+				cn == "(*go.etcd.io/bbolt.Tx).DeleteBucket" || cn == "(*go.etcd.io/bbolt.Bucket).Delete" || cn == "(*go.etcd.io/bbolt.Bucket).DeleteBucket" ||
+				cn == "github.com/spf13/afero.Walk" && false
+			if !destructive {
+				return
+			}
+			if args := c.Common().Args; len(args) > 0 {
+				if constName(args[0]) {
+					return // a scratch file of a fixed name the constructor made itself (modtime probe)
+				}
+			}
+			n++
+			r.Violated("R15.8", key(fname(r, ff), "constructor removes stored state", cn, sprintf("#%d", n)), pos(r, in), "a destructive storage call ("+cn+") is reachable from a backend constructor: reopening existing storage can remove buckets or objects that were acknowledged before the restart")
+		})
+	}
+	r.Held("R15.8", key("constructors", "no destructive call"), "", sprintf("%d constructor roots, destructive calls found: %d", len(roots), n))
+	// front end: no state of its own
+	nStores := 0
+	for _, f := range r.P.FuncsOfPkg("gofakes3") {
+		ff := f
+		core.Instrs(ff, func(in ssa.Instruction) {
+			switch x := in.(type) {
+			case *ssa.Store:
+				fa, ok := x.Addr.(*ssa.FieldAddr)
+				if !ok || !strings.HasPrefix(r.P.FieldName(fa), "gofakes3.GoFakeS3.") {
+					return
+				}
+				nStores++
+				okS := baseRoot(fa.X) != nil || isConstruction(r, ff)
+				r.Check(okS, "R15.8", key(fname(r, ff), "front end field written", r.P.FieldName(fa)), pos(r, in), "written during construction", "a field of GoFakeS3 is written while serving: the front end keeps state that a restart loses")
+			case *ssa.MapUpdate:
+				ms := r.P.SliceOf(x.Map, core.SliceOpts{Depth: -1})
+				if ms.HasPrefix("field:gofakes3.GoFakeS3.") {
+					nStores++
+					r.Violated("R15.8", key(fname(r, ff), "front end map updated"), pos(r, in), "a map held by GoFakeS3 is updated while serving: what it remembers (e.g. an ETag) is gone after a restart and the same object is then answered differently")
+				}
+			}
+		})
+	}
+	if w := optFunc(r, "gofakes3.(*GoFakeS3).writeGetOrHeadObjectResponse"); w != nil {
+		core.Instrs(w, func(in ssa.Instruction) {
+			c, ok := in.(*ssa.Call)
+			if !ok || r.P.CalleeName(c) != "(net/http.Header).Set" {
+				return
+			}
+			if nme, ok := core.ConstString(c.Call.Args[1]); !ok || nme != "ETag" {
+				return
+			}
+			vs := r.P.SliceOf(c.Call.Args[2], core.SliceOpts{Depth: 0})
+			bad := ""
+			for _, l := range vs.LeafList("") {
+				switch {
+				case l == "field:gofakes3.Object.Hash", strings.HasPrefix(l, "const:"), l == "call:encoding/hex.EncodeToString", l == "via:encoding/hex.EncodeToString", strings.HasPrefix(l, "op:"):
+				case strings.HasPrefix(l, "param:"):
+					for _, v := range vs.LeafVals[l] {
+						if !strings.HasSuffix(v.Type().String(), "gofakes3.Object") {
+							bad += " " + l
+						}
+					}
+				default:
+					bad += " " + l
+				}
+			}
+			r.Check(bad == "" && vs.Has("field:gofakes3.Object.Hash"), "R15.8", key(fname(r, w), "ETag from the stored object only"), pos(r, c), "ETag = f(obj.Hash)", "the ETag header depends on something besides the stored object's Hash ("+strings.TrimSpace(bad)+"): state the backend did not store, which differs after a restart")
+		})
+	}
+	if nStores < 5 {
+		r.Unresolved("R15.8: only %d stores to GoFakeS3 fields found (expected the constructor's)", nStores)
+	}
+}
+
+// constName: the value is a string constant, or a load of a local variable
+// that is only ever assigned string constants.
+func constName(v ssa.Value) bool {
+	if _, ok := core.ConstString(v); ok {
+		return true
+	}
+	u, ok := v.(*ssa.UnOp)
+	if !ok || u.Op != token.MUL {
+		return false
+	}
+	a, ok := u.X.(*ssa.Alloc)
+	if !ok {
+		return false
+	}
+	n := 0
+	for _, ref := range *a.Referrers() {
+		switch x := ref.(type) {
+		case *ssa.Store:
+			if x.Addr != a {
+				return false
+			}
+			if _, ok := core.ConstString(x.Val); !ok {
+				return false
+			}
+			n++
+		case *ssa.UnOp, *ssa.MakeClosure, *ssa.DebugRef:
+		default:
+			return false
+		}
+	}
+	return n > 0
 }
